@@ -525,6 +525,92 @@ CHUNK_PARAM_CALLEES = {
 }
 
 
+def _enclosing_func(prog, mod, node):
+    encl = None
+    for g_ in prog.funcs.values():
+        if g_.module is mod and not isinstance(g_.node, ast.Lambda) and any(
+                x is node for x in ast.walk(g_.node)):
+            if encl is None or any(x is g_.node for x in ast.walk(encl.node)):
+                encl = g_
+    return encl
+
+
+def _judge_chunk_use(prog, mod, parents, n, depth):
+    """Is this occurrence of a chunk-size value used only to decide how rows
+    are batched?  (ok, why not).  A local name bound to the value
+    (``chunk_size = CONFIDENCE_CHUNK_SIZE``) is followed to its uses."""
+    par = parents.get(id(n))
+    ok = False
+    why = f"used in {ast.unparse(par)[:80] if par else '?'}"
+    if isinstance(par, ast.keyword):
+        call = parents.get(id(par))
+        ok = par.arg in ("chunk_size", "batch_size",
+                         "reader_chunk_size") and isinstance(call, ast.Call)
+        if not ok and isinstance(call, ast.Call):
+            ok = _bound_to_chunk_param(prog, mod, call, n)
+    elif isinstance(par, ast.Call) and n in par.args:
+        fn = ast.unparse(par.func).split(".")[-1]
+        ok = fn in CHUNK_PARAM_CALLEES or fn == "range"
+        if not ok:
+            # positional argument bound to a chunk-size parameter of a
+            # repository function
+            ok = _bound_to_chunk_param(prog, mod, par, n)
+    elif isinstance(par, ast.Compare) and len(par.ops) == 1 and \
+            isinstance(par.ops[0], (ast.Eq, ast.NotEq, ast.Lt,
+                                    ast.LtE, ast.Gt, ast.GtE)):
+        # batch-flush test: counter / len(batch) against the chunk size
+        # only decides when rows are handed on
+        other = par.comparators[0] if par.left is n else par.left
+        ok = isinstance(other, ast.Name) or (
+            isinstance(other, ast.Call) and isinstance(
+                other.func, ast.Name) and other.func.id == "len") \
+            or isinstance(other, (ast.Subscript, ast.Attribute))
+    elif isinstance(par, ast.BinOp) and isinstance(
+            par.op, ast.Add) and isinstance(
+                parents.get(id(par)), ast.Slice):
+        ok = True  # x[i:i + chunk size]: hand-written chunking
+    elif isinstance(par, ast.Assign) and par.value is n and len(
+            par.targets) == 1 and isinstance(
+                par.targets[0], ast.Name) and depth < 3:
+        # a local name for the value: every use that this binding reaches
+        # is judged in its place
+        encl = _enclosing_func(prog, mod, par)
+        if encl is not None:
+            du = DefUse(prog, encl)
+            mine = [d for d in du.defs if d.value is n]
+            uses = []
+            for d, nodes in du.uses_by_def().items():
+                if d in mine:
+                    uses.extend(nodes)
+            if mine:
+                ok = True
+                for u in uses:
+                    o2, w2 = _judge_chunk_use(prog, mod, parents, u,
+                                              depth + 1)
+                    if not o2:
+                        ok, why = False, (
+                            f"bound to '{par.targets[0].id}', which is "
+                            f"{w2}")
+                        break
+    return ok, why
+
+
+def _bound_to_chunk_param(prog, mod, call, n):
+    encl = _enclosing_func(prog, mod, call)
+    if encl is None:
+        return False
+    _kind, tg_ = prog.resolve_call(encl, mod, call)
+    for q_ in tg_ or ():
+        g_ = prog.funcs.get(q_) or prog.funcs.get(q_ + ".__init__")
+        if g_ is None:
+            continue
+        b_ = prog.bind(g_, call)
+        for k_, v_ in b_.items():
+            if v_ is n and ("chunk" in k_ or "batch" in k_):
+                return True
+    return False
+
+
 def _chunk_constants(ctx):
     prog = ctx.prog
     cm = prog.module("constants")
@@ -559,51 +645,7 @@ def _chunk_constants(ctx):
                 continue
             n_uses += 1
             par = parents.get(id(n))
-            ok = False
-            why = f"used in {ast.unparse(par)[:80] if par else '?'}"
-            if isinstance(par, ast.keyword):
-                call = parents.get(id(par))
-                ok = par.arg in ("chunk_size", "batch_size",
-                                 "reader_chunk_size") and isinstance(
-                    call, ast.Call)
-            elif isinstance(par, ast.Call) and n in par.args:
-                fn = ast.unparse(par.func).split(".")[-1]
-                ok = fn in CHUNK_PARAM_CALLEES or fn == "range"
-                if not ok:
-                    # positional argument bound to a chunk-size parameter
-                    # of a repository function
-                    encl = None
-                    for fq_, g_ in prog.funcs.items():
-                        if g_.module is mod and not isinstance(
-                                g_.node, ast.Lambda) and any(
-                                    x is par for x in ast.walk(g_.node)):
-                            encl = g_
-                    if encl is not None:
-                        kind_, tg_ = prog.resolve_call(encl, mod, par)
-                        for q_ in tg_ or ():
-                            g_ = prog.funcs.get(q_) or prog.funcs.get(
-                                q_ + ".__init__")
-                            if g_ is None:
-                                continue
-                            b_ = prog.bind(g_, par)
-                            for k_, v_ in b_.items():
-                                if v_ is n and ("chunk" in k_
-                                                or "batch" in k_):
-                                    ok = True
-            elif isinstance(par, ast.Compare) and len(par.ops) == 1 and \
-                    isinstance(par.ops[0], (ast.Eq, ast.NotEq, ast.Lt,
-                                            ast.LtE, ast.Gt, ast.GtE)):
-                # batch-flush test: counter / len(batch) against the chunk
-                # size only decides when rows are handed on
-                other = par.comparators[0] if par.left is n else par.left
-                ok = isinstance(other, ast.Name) or (
-                    isinstance(other, ast.Call) and isinstance(
-                        other.func, ast.Name) and other.func.id == "len") \
-                    or isinstance(other, (ast.Subscript, ast.Attribute))
-            elif isinstance(par, ast.BinOp) and isinstance(
-                    par.op, ast.Add) and isinstance(
-                        parents.get(id(par)), ast.Slice):
-                ok = True  # x[i:i + chunk size]: hand-written chunking
+            ok, why = _judge_chunk_use(prog, mod, parents, n, 0)
             fq = mod.name
             cname = dn.rsplit(".", 1)[1]
             ctx.check(ok, "C05e-chunk-constant-use", fq,
